@@ -1228,3 +1228,4 @@ class Network:
 
         self._log_connections_task.cancel()
         self._upnp_task.cancel()
+        self._connection_watchdog_task.cancel()
